@@ -70,10 +70,11 @@ VARIABLES stage, msg, kind, input
 pvars == <<stage, msg, kind, input>>
 
 \* abstract request: hdrs = sequence of <<name class, value token>>; uid = asserted user;
-\* forged = client-supplied identity values; auth = client-supplied Authorization values
+\* forged = client-supplied identity values (someone else's, the value the proxy asserts itself, or empty);
+\* auth = client-supplied Authorization values
 ValTok == {"v1", "v2"}
 HdrLists == UNION {[1..n -> NameClass \X ValTok] : n \in 0..2}
-ReqInputs == [hdrs : HdrLists, forged : UNION {[1..n -> {"evil"}] : n \in 0..2}, auth : {<<>>, <<"secret">>},
+ReqInputs == [hdrs : HdrLists, forged : UNION {[1..n -> {"evil", "asserted", ""}] : n \in 0..2}, auth : {<<>>, <<"secret">>},
               fwd : BOOLEAN, strip : BOOLEAN]
 \* abstract response: declared trailer names, interim responses, final status
 RespInputs == [hdrs : HdrLists, declared : {<<>>, <<"A">>, <<"A", "B">>}, interim : {<<>>, <<103>>, <<103, 103>>},
